@@ -60,14 +60,13 @@ def main(c):
     c.trusted("driver.cxx (bit_cast of patterns, printing), g++ -O2 / -Ofast code generation of the real header",
               "glibc __fpclassifyf/__fpclassify/__fpclassifyl as a second oracle",
               "model_driver.ml (hex parsing, printing of the extracted model's results)")
-    # ---- proofs
-    res = c.coq(["C16Spec.v", "C16Model.v", "C16Proofs.v", "Properties_C16.v"], timeout=900)
     # ---- extracted model
     mexe = c.ocaml_extract("c16", ["C16Spec.v", "C16Model.v"],
                            "From Coq Require Import ExtrOcamlBasic.\nFrom C16 Require Import C16Spec C16Model.\n"
                            "Extraction \"c16_model.ml\" fpclassify32 fpclassify64 fpclassify80 isnan32 isnan64 isnan80 "
                            "isfinite32 isfinite64 isfinite80 ieee_class32 ieee_class64 x87_class_bits glibc_of_bits.\n",
                            "model_driver.ml")
+    c.log('extraction done')
     # ---- patterns
     p32 = []
     for s in range(2):
@@ -124,8 +123,12 @@ def main(c):
     with ThreadPoolExecutor(max_workers=3) as ex:
         fm = ex.submit(run_model)
         fb = {b: ex.submit(run_build, b) for b in builds}
+        # ---- proofs (main thread, while the model and the real code run)
+        res = c.coq(["C16Spec.v", "C16Flocq.v", "C16Model.v", "C16Proofs.v", "Properties_C16.v"], timeout=900)
+        c.log('coq done')
         rcm, outm, errm = fm.result()
         outs = {b: fb[b].result() for b in builds}
+    c.log('runs done')
     if rcm != 0:
         c.report("model-run", "extracted model failed: " + errm[-500:], {"stderr": errm[-2000:]}, False)
         return
@@ -154,10 +157,12 @@ def main(c):
                  {"format": k[0], "pattern": k[1]}, True)
 
     nfail = [0]
+    nfmt = {}
 
     def fail(b, fmt, pat_key, pat_desc, replay, seen, want, glibc=None):
         nfail[0] += 1
-        if nfail[0] > 12:
+        nfmt[(b, fmt)] = nfmt.get((b, fmt), 0) + 1
+        if nfmt[(b, fmt)] > 3:
             return
         c.report("%s:%s:%s" % (fmt, b, pat_key),
                  "tfel::math::ieee754 (%s build) on %s: observed %s, IEEE class is %s (%s)%s" % (
@@ -257,8 +262,8 @@ def main(c):
             seen = "fpclassify=%s isnan=%s isfinite=%s" % (t[2], t[3], t[4])
             if seen != obs_str(obs_of_class(want)):
                 fail(b, "ce%d" % fmt, t[1], "constexpr evaluation on pattern 0x%s" % t[1], {"format": fmt, "pattern": t[1], "constexpr": True}, seen, want)
-    if nfail[0] > 12:
-        c.notes.append("%d failing patterns in total; first 12 reported" % nfail[0])
+    if nfail[0]:
+        c.notes.append("%d failing patterns in total; at most 3 per (build, format) reported" % nfail[0])
     c.sample({"float": "all 2^32 patterns, per (sign, exponent): observation at fraction 0 and set of observations over the other 2^23-1 fractions", "rows": 512, "builds": list(builds)})
     c.sample({"double_patterns": len(p64), "first": "%016x" % p64[0], "last": "%016x" % p64[-1]})
     c.sample({"x87_patterns": len(p80), "special": ["%04x:%016x" % p for p in special80[:8]]})
